@@ -20,7 +20,10 @@ LEVEL_TEXT = (
     "set equals `restrict` of the full-options result (attributes dropped, deprecated input values/directives "
     "removed); `__type(name:)` equals the entry of `__schema.types`; building a client schema from the full result of "
     "a well-formed schema returns exactly that schema (hence prints identically, has no differences and introspects "
-    "to the same result under every option set); build_client_schema never crashes on the result of the standard query "
+    "to the same result under every option set) — also with default values as TEXT (client_roundtrip_text: every "
+    "`defaultValue` printed by the print_ast model and re-parsed by the parse_const_value model, the print/parse law "
+    "proved from C08's roundtrip_value for schemas whose default literals are well-formed constant literals); "
+    "build_client_schema never crashes on the result of the standard query "
     "for ANY schema value and ANY option set (only its own TypeError/GraphQLError); every result conforms to the "
     "introspection types (Spec.Conforms against the T1 table of declared fields regenerated from type/introspection.py: "
     "declared fields only, Non-Null never null, lists where declared, kind/locations from the enums). The model (introspect / restrict / "
@@ -32,8 +35,10 @@ LEVEL_TEXT = (
 )
 LEVEL_NOTE = (
     "Trusted: Lean kernel; hand-written models Gql/Types/{IntroSchema,Json,Introspection,ClientSchema}.lean (tied by "
-    "correspondence, not by translation); print/parse of constant values enter the round-trip theorem as parameters "
-    "with the law parse(print v) = v as a hypothesis (that law is property C08); the executor is not modelled for the "
+    "correspondence, not by translation); in client_roundtrip print/parse of constant values are parameters with the "
+    "law parse(print v) = v as a hypothesis; client_roundtrip_text instantiates them with the printer / parser models "
+    "of C08/C01 (Gql/Types/ClientText.lean) and proves the law (C08 roundtrip_value) under DefaultsWf — ast_from_value / "
+    "value_from_ast between a Python default value and its literal stay outside the model; the executor is not modelled for the "
     "meta-schema (that the query validates and executes without errors is observed on the implementation); harness."
 )
 TECHNIQUE = "Lean 4 proof about a hand-written model + differential correspondence + property oracles on the implementation"
@@ -42,7 +47,11 @@ TRUSTED = [
     "get_introspection_query.py) and Gql/Types/ClientSchema.lean (build_client_schema.py); tied to the code by the "
     "correspondence run (model JSON = implementation JSON, model client schema = implementation client schema)",
     "print_ast / parse_const_value of default values are parameters (printV, parseV) of the Lean theorems; the law "
-    "parseV (printV v) = ok v is a hypothesis of client_roundtrip (it is property C08's theorem)",
+    "parseV (printV v) = ok v is a hypothesis of client_roundtrip; client_roundtrip_text discharges it: printV := printer "
+    "model (Gql.Syntax.printAst, generated widths or any with object >= 4), parseV := parser model at the CONST VALUE "
+    "entry, law = C08 roundtrip_value, for schemas with DefaultsWf (default literals = trees of Val.wf true values; "
+    "what parse_const_value returns on surrogate-free text: parsed_default_wf). The `dv` correspondence stream runs every "
+    "defaultValue string of the implementation through these two models (same text printed, parses back)",
     "execution of the query text through the executor over the meta-schema is not modelled: `validate == []` and "
     "`errors is None` are observed on the implementation for every schema x option set explored",
     "T1: option names/defaults and type_depth are re-extracted from get_introspection_query.py on every run "
@@ -59,7 +68,8 @@ ASSUMPTIONS = [
     "key order inside JSON objects is not compared (dict equality); list order is",
 ]
 EXPLANATION = (
-    "Theorems: introspect_restrict(_all), type_lookup, client_roundtrip, client_indistinguishable, reintrospect (all "
+    "Theorems: introspect_restrict(_all), type_lookup, client_roundtrip, client_roundtrip_text / reintrospect_text / "
+    "default_text_roundtrip / printDefault_ok / parsed_default_wf (defaults as text, C08 composed), client_indistinguishable, reintrospect (all "
     "option sets), buildClient_no_crash_on_introspect (any schema value, any option set), introspect_conforms / "
     "type_lookup_conforms (against the regenerated table of introspection_types). Correspondence: introspection_from_schema(s, **o) vs "
     "introspect, build_client_schema vs buildClient. Oracles on the implementation: validate/execute, restrict "
@@ -659,6 +669,16 @@ def _check_schema_gen(case, names, depth, option_bits, have_drv, n_adhoc, seed):
     # --- model side (one driver call per schema)
     lines, tags = [], []
     sub_bits = [b for b in all_bits if b in results]
+    default_texts = list(dict.fromkeys(
+        iv["defaultValue"]
+        for ivs in (
+            [f["args"] for t in full["__schema"]["types"] for f in (t["fields"] or [])]
+            + [t["inputFields"] or [] for t in full["__schema"]["types"]]
+            + [d["args"] for d in full["__schema"]["directives"]]
+        )
+        for iv in ivs
+        if iv["defaultValue"] is not None
+    ))
     if have_drv:
         wj = G.w_json(full)
         ws = G.w_schema(schema)
@@ -672,6 +692,11 @@ def _check_schema_gen(case, names, depth, option_bits, have_drv, n_adhoc, seed):
         tags.append("client")
         lines.append(f"wf {depth} {G.w_client_env()} {ws}")
         tags.append("wf")
+        # every `defaultValue` string of the implementation through the text-level model (printer model o
+        # parse_const_value model, the functions of client_roundtrip_text): the model must print the same text
+        if default_texts:
+            lines.append(f"dv {len(default_texts)} " + " ".join(G.w_str(t) for t in default_texts))
+            tags.append("dv")
         # the client builder on results of reduced option sets (correspondence only)
         for b in sub_bits[1:4]:
             lines.append(f"client {G.w_client_env()} {G.w_json(results[b])}")
@@ -716,6 +741,20 @@ def _check_schema_gen(case, names, depth, option_bits, have_drv, n_adhoc, seed):
             m = G.r_json(part)
             if m != results[bits]:
                 rep.disagreements.append(Disagreement("introspect", {**ident, "options": opts_of(bits, names)}, _first_diff(results[bits], m), "model"))
+
+    if "dv" in model:
+        for text, part in zip(default_texts, model["dv"].split(" | ")):
+            rep.evaluations += 1
+            rep.stats["default_texts"] = rep.stats.get("default_texts", 0) + 1
+            w = part.split(" ")
+            got = None
+            if w[0] == "ok" and w[1] == "S":
+                k = int(w[2])
+                got = ("".join(chr(int(c)) for c in w[3:3 + k]), w[3 + k])
+            if got != (text, "T"):
+                rep.disagreements.append(Disagreement(
+                    "default-text", {**ident, "defaultValue": text}, (text, "T"),
+                    got if got is not None else part[:200]))
 
     if "wf" in model and not beyond:
         rep.evaluations += 1
